@@ -110,6 +110,13 @@ def make_cases(ctx, vocab):
         for s in ["5 March 2015 10:00", "2015-03-05", "15 March 2015", "March 2015", "5 mars 2015 10:00", "2015-03-05 23:30", "15/03/2015"]:
             add(s, {"languages": ["fr" if "mars" in s else "en"]}, set(), False, "abs", rng.choice(RSETS), st=dict(outst), b2=AW2)
             cases[-1]["b1"] = AW1
+    # strings with TWO date tokens only (a number and a year, a month name and a year ...): whatever the order in which
+    # numbers are read, they cannot state day, month and year - strict parsing must refuse them
+    for s_ in ["10 2014", "10/2014", "5 1999", "03/2015", "12 2015", "2014 10", "2014/3", "11 0001", "March 2014", "2014 March", "7 March", "10-2014"]:
+        for o in ("MDY", "DMY", "YMD", "YDM", "MYD", "DYM"):
+            add(s_, {"languages": ["en"]}, set(), False, "abs", ["day", "month", "year"], st={"DATE_ORDER": o})
+            cases[-1]["maxparts"] = 2
+            cases[-1]["dorder"] = o
     # custom-format and timestamp parsers: the relational clauses
     for s, fmt in [("March 2015", "%B %Y"), ("2015", "%Y"), ("15 March", "%d %B"), ("15/03/2015", "%d/%m/%Y"),
                    ("10:30", "%H:%M"), ("March", "%B"), ("15", "%d")]:
@@ -160,7 +167,8 @@ def run(ctx):
     results = core.run_cases(ctx, "harness.lib", "call_c10", cases, chunk=50)
     records, nabs = [], 0
     for i, (c, r) in enumerate(zip(cases, results)):
-        rec = {"kind": "c10", "tid": i, "R": c["R"], "present": c["present"], "gen": c["gen"], "pdf": c["pdf"]}
+        rec = {"kind": "c10", "tid": i, "R": c["R"], "present": c["present"], "gen": c["gen"], "pdf": c["pdf"], "maxparts": c.get("maxparts", 3),
+               "dorder": c.get("dorder", "")}
         rec.update(r["runs"])
         if c["parser"] == "fmt" and r["clock0"][:3] != r["clock1"][:3]:
             rec["pdf"] = "skip"
@@ -168,7 +176,7 @@ def run(ctx):
         ar = absfam.abs_records(i, r) + absfam.nsp_records(i, r)
         nabs += len(ar)
         records.extend(ar)
-    tuples, _ = core.validate_traces(ctx, "T_C10", absfam.TRACE_CFG, records, tags=("REJECT", "SKIP"))
+    tuples, _ = core.validate_traces(ctx, "T_C10", absfam.TRACE_CFG, records, tags=("REJECT", "SKIP", "KNOWN"))
     sp = sum(1 for t in tuples["SKIP"] if t[2] == "prop")
     sa = sum(1 for t in tuples["SKIP"] if t[2] == "abs")
     for r in results:
@@ -186,6 +194,6 @@ def run(ctx):
         "exhaustive": False,
         "samples": [dict(describe(c), outcomes=r["runs"]) for c, r in list(zip(cases, results))[:: max(1, len(cases) // 5)]][:5],
     }
-    return core.finish(ctx, LEVEL, cov, assumptions=[
+    return core.finish(ctx, LEVEL, cov, findings_desc={f["id"]: f["signature"].get("text", "") for f in core.load_findings("C10")[0]}, assumptions=[
         "PREFER_DATES_FROM at its default (current_period): under past/future a stated two-digit year is pivoted by the reference time",
         "'states all parts' is demanded only of generated, unambiguously spelled inputs (month by name, 4-digit year, day > 12) through the absolute parser; custom-format and timestamp parsers: relational clauses only (DESIGN 4 C10)"])
